@@ -82,6 +82,7 @@ type funcContract struct {
 	props      []string
 	mode       string
 	inline     bool
+	wrap64     bool
 	pure       bool
 	trusted    bool // extern: contract is assumed, body never verified
 	requires   []*clause
@@ -245,6 +246,8 @@ func (db *specDB) loadSpecFile(path string, pkgName string, isGo bool) error {
 			cur.props = strings.Fields(strings.ReplaceAll(rest, ",", " "))
 		case "mode":
 			cur.mode = strings.TrimSpace(rest)
+		case "wrap64":
+			cur.wrap64 = true
 		case "inline":
 			cur.inline = true
 		case "pure":
